@@ -286,11 +286,15 @@ func TestVerifC03Dec(t *testing.T) {
 
 	// ---- generated descriptions, encoded by the Lean specification
 	g := vfc03.NewGen(r.Fork())
-	n := vfutil.Scale(250, 6000)
+	n := vfutil.Scale(250, 5200)
 	var dss []*vfc03.Dataset
 	var descs []string
 	for i := 0; i < n; i++ {
-		ds := g.File(vfc03.FileOpts{MaxKeys: 5, Now: 946684800000, MultiDB: true, Modules: true, Huge: i == n/2,
+		force := 0
+		if i%3 == 1 {
+			force = i/3 + 1 // forced degenerate-but-legal shapes in turn (vfc03.FileOpts.Force)
+		}
+		ds := g.File(vfc03.FileOpts{MaxKeys: 5, Now: 946684800000, MultiDB: true, Modules: true, Huge: i == n/2, Force: force,
 			Many: map[int]string{n/3: "slpmany", 2*n/3: "hlpmany"}[i], Streams: i%5 == 1,
 			Versions: []int{1, 6, 7, 8, 9, 10, 11, 12, 13}})
 		dss = append(dss, ds)
@@ -309,6 +313,15 @@ func TestVerifC03Dec(t *testing.T) {
 		for _, k := range dss[i].Keys {
 			s.Count("kind_" + k.Kind)
 		}
+		for _, d := range dss[i].Dims {
+			s.Count("dim_forced_" + d)
+		}
+		if dss[i].Functions > 0 {
+			s.Count("dim_function_libraries")
+		}
+		s.Count(fmt.Sprintf("cfg_maxBinEntryBuffer_%d", c.thr))
+		s.Count(fmt.Sprintf("cfg_targetVersion_%d.%d", c.tgt, c.minor))
+		s.Count(fmt.Sprintf("cfg_moduleAuxPolicyFail_%d", map[bool]int{false: 0, true: 1}[c.modaux]))
 		// monitor (decoder level): every key of the dataset is emitted, in order, with
 		// its DB, absolute expiry and — when not split — a payload equal to
 		// type + serialization + footer (independent CRC64)
